@@ -86,6 +86,7 @@ def m1prop(pid, props_file, prefixes, quick=300, thorough=6000, extra=None, spec
 PROPS['C01'] = m1prop('C01', 'theories/Props/C01.v', ['C01', 'panic', 'hang'],
                       extra=scenario_extra(('C01-callback-registration-not-atomic', 8, 'gated: two concurrent senders on one charge point, the first held inside the request queue and then refused; its callback must never run, the other sender gets its own reply'),
                                             ('C01-stale-conclusion-after-restart', 12, 'gated: Stop overtakes a conclusion on its way to the callback routine, 12 tries; after Start the first callback gets its own reply (F32)'),
+                                            ('C01-reply-racing-timeout', 22, 'gated (RequestQueue.Peek held): the reply to a request and its timeout are handled at the same time; the request is concluded exactly once, the next requests are written, answered and concluded (F9)'),
                                             ('C01-conclusions-reordered', 19, 'gated: while the callback routine is busy a response and then an error are concluded, 12 tries; each reaches its own callback (F5)')))
 PROPS['C02'] = m1prop('C02', 'theories/Props/C02.v', ['C02'],
                       extra=scenario_extra(('C02-outstanding-written-twice', 10, 'gated: the connection drops while the dispatcher is inside ws.Client.Write (the write succeeds); after the reconnection another request is queued: still one outstanding CALL, written once'),
@@ -94,6 +95,7 @@ PROPS['C02'] = m1prop('C02', 'theories/Props/C02.v', ['C02'],
 PROPS['C07'] = m1prop('C07', 'theories/Props/C07.v', ['C07', 'hang', 'panic'],
                       extra=scenario_extra(('C07-senders-vs-disconnect-deadlock', 6, 'real sockets: 4 goroutines keep sending on a charge point while the central system drops its connection 12 times; every send and the final Stop must return (F30)'),
                                             ('C07-resume-blocks-pump', 9, 'gated: a write fails and the pump sits in the application cancel callback while the connection drops and comes back; Resume must not block the pump, the endpoint keeps working'),
+                                            ('C07-reply-racing-timeout-stall', 22, 'gated (RequestQueue.Peek held): reply and timeout of one request handled at the same time; the dispatcher goes on with the next requests (F9)'),
                                             ('C07-simultaneous-timeouts-stall', 20, 'the requests of 8 clients time out at the same moment: all 8 are cancelled and the dispatcher still serves a request sent afterwards (F18)'),
                                             ('C07-server-burst-deadlock', 13, '60 concurrent server-side sends (the request channel holds 20) with a 15 ms network write: every SendRequest returns and all 60 requests are written (F3)')))
 PROPS['C09'] = m1prop('C09', 'theories/Props/C09.v', ['C09'],
